@@ -1,1 +1,28 @@
 pub use refmodel::vals::*;
+
+use crate::exec::IS_F32;
+
+/// binary-exponent ranges of the wide-magnitude campaigns: (largest base exponent of an operand for operations
+/// that only add / copy, the same for operations that multiply operands, largest per-element jitter)
+pub fn wide_exps() -> (i32, i32, i32) {
+    if IS_F32 {
+        (90, 8, 12)
+    } else {
+        (900, 100, 30)
+    }
+}
+
+/// operand values of log-uniform magnitude around 2^base, each element with its own jitter in [-jitter, jitter]
+pub fn wide_vals(seed: u64, n: usize, base: i32, jitter: i32, signed: bool) -> Vec<f64> {
+    log_uniform(seed, n, base - jitter, base + jitter, signed)
+}
+
+/// a base exponent in [-max, max] chosen by `sel` (0..=255), with the extremes and 0 over-represented
+pub fn pick_base(sel: u8, max: i32) -> i32 {
+    match sel % 8 {
+        0 => 0,
+        1 => max,
+        2 => -max,
+        _ => ((sel as i32 * (2 * max + 1)) >> 8) - max,
+    }
+}
